@@ -531,6 +531,19 @@ def merge_depths(l, r):
     return ret
 
 
+def _same_value(left, right):
+    """Whether two default or annotation values are the same for the
+    purposes of combining parameters: one object, or equal objects.  Values
+    that refuse to be compared, or whose comparison has no truth value
+    (eg. arrays), are the same only if they are one object."""
+    if left is right:
+        return True
+    try:
+        return bool(left == right)
+    except Exception:
+        return False
+
+
 class _Merger(object):
     def __init__(self, left, right):
         self.l = left
@@ -738,7 +751,7 @@ class _Merger(object):
         r_upgraded = right.upgraded_annotation
         if l_upgraded is EmptyAnnotation or r_upgraded is EmptyAnnotation:
             # nothing is known about where they were written
-            return left.annotation == right.annotation
+            return _same_value(left.annotation, right.annotation)
         # postponed annotations are text: the same text may denote
         # different objects in the modules the two functions come from,
         # and different texts the same object
@@ -750,12 +763,7 @@ class _Merger(object):
     def _concile_meta(self, left, right):
         default = left.empty
         if left.default is not left.empty and right.default is not right.empty:
-            try:
-                same = bool(left.default == right.default)
-            except Exception:
-                # values that refuse to be compared or to have a truth value
-                same = left.default is right.default
-            if same:
+            if _same_value(left.default, right.default):
                 default = left.default
             else:
                 # The defaults are different. Short of using an "It's complicated"
@@ -765,14 +773,16 @@ class _Merger(object):
                 default = None
         annotation = left.empty
         upgraded_annotation = EmptyAnnotation
-        if left.annotation != left.empty and right.annotation != right.empty:
+        if (
+                left.annotation is not left.empty
+                and right.annotation is not right.empty):
             if self._same_annotation(left, right):
                 annotation = left.annotation
                 upgraded_annotation = left.upgraded_annotation
-        elif left.annotation != left.empty:
+        elif left.annotation is not left.empty:
             annotation = left.annotation
             upgraded_annotation = left.upgraded_annotation
-        elif right.annotation != right.empty:
+        elif right.annotation is not right.empty:
             annotation = right.annotation
             upgraded_annotation = right.upgraded_annotation
         return left.replace(default=default, annotation=annotation, upgraded_annotation=upgraded_annotation)
